@@ -481,3 +481,93 @@ Proof.
   destruct (exec_strings now d (upper b) (FBulk b :: parts)) as [[r d']|] eqn:E; [|reflexivity].
   cbn [fst snd]. intros He Hn. eapply exec_strings_atomic; eauto.
 Qed.
+
+(** ---- more Redis clauses ---- *)
+(** SETRANGE: the result has length max(len b, off + len v); before [off] it is [b] padded
+    with zero bytes, then [v], then the rest of [b] *)
+Lemma zeros_length n : 0 <= n -> len (zeros n) = n.
+Proof. intros H. unfold zeros, len. rewrite repeat_length. lia. Qed.
+Lemma setrange_length b off v : 0 <= off ->
+  len (setrange_bytes b off v) = Z.max (len b) (off + len v).
+Proof.
+  intros Ho. unfold setrange_bytes. pose proof (len_nonneg b) as Hb. pose proof (len_nonneg v) as Hv.
+  destruct (len b <? off + len v) eqn:E.
+  - rewrite !len_app. unfold zfirstn, zskipn, len. rewrite firstn_length, skipn_length, app_length.
+    unfold zeros. rewrite repeat_length. unfold len in *. lia.
+  - rewrite !len_app. unfold zfirstn, zskipn, len. rewrite firstn_length, skipn_length. unfold len in *. lia.
+Qed.
+Lemma nth_error_app_l {A} (a b : list A) i : (i < length a)%nat -> nth_error (a ++ b) i = nth_error a i.
+Proof. intros H. apply nth_error_app1. exact H. Qed.
+Lemma setrange_payload b off v i : 0 <= off -> 0 <= i < len v ->
+  nth_error (setrange_bytes b off v) (Z.to_nat (off + i)) = nth_error v (Z.to_nat i).
+Proof.
+  intros Ho Hi. unfold setrange_bytes. pose proof (len_nonneg b) as Hb.
+  set (b' := if len b <? off + len v then b ++ zeros (off + len v - len b) else b).
+  assert (Hl : off + len v <= len b').
+  { unfold b'. destruct (len b <? off + len v) eqn:E; [rewrite len_app, zeros_length by lia; lia|lia]. }
+  assert (Hf : length (zfirstn off b') = Z.to_nat off).
+  { unfold zfirstn. rewrite firstn_length. unfold len in Hl. lia. }
+  rewrite nth_error_app2 by (rewrite Hf; lia). rewrite Hf.
+  rewrite nth_error_app1 by (unfold len in Hi; lia). f_equal. lia.
+Qed.
+
+(** RENAME: the destination gets exactly the source's entry (value and deadline), the source
+    disappears, every other key is untouched *)
+Lemma rename_spec d o n e k : get_entry d o = Some e ->
+  let d' := snd (eng_rename d o n) in
+  get_entry d' n = Some e /\
+  (beq o n = false -> get_entry d' o = None) /\
+  (beq k o = false -> beq k n = false -> get_entry d' k = get_entry d k).
+Proof.
+  intros Hg. unfold eng_rename. rewrite Hg. cbn [snd]. split; [apply get_entry_put_same|]. split.
+  - intros Hn. rewrite get_entry_put_other by exact Hn. apply get_entry_del_same.
+  - intros H1 H2. rewrite get_entry_put_other by exact H2. apply get_entry_del_other; exact H1.
+Qed.
+
+(** SET with NX / XX: NX writes only when the key is absent (or expired), XX only when present *)
+Lemma set_nx_spec now d k v :
+  k <> [] ->
+  h_set now d [FBulk (bs "SET"); FBulk k; FBulk v; FBulk (bs "NX")] =
+  if eng_exists now d k then (r_nil, d) else (r_ok, set_value now d k (VStr v) None).
+Proof.
+  intros Hk. unfold h_set. change (nparts _ <? 3) with false. cbv iota.
+  cbn [nth_error arg_bytes]. destruct (beq k []) eqn:E; [apply beq_eq in E; congruence|].
+  change (parse_set_opts _ _ None false false) with (SetOpts None true false). cbv iota.
+  destruct (eng_exists now d k); reflexivity.
+Qed.
+Lemma set_xx_spec now d k v :
+  k <> [] ->
+  h_set now d [FBulk (bs "SET"); FBulk k; FBulk v; FBulk (bs "XX")] =
+  if eng_exists now d k then (r_ok, set_value now d k (VStr v) None) else (r_nil, d).
+Proof.
+  intros Hk. unfold h_set. change (nparts _ <? 3) with false. cbv iota.
+  cbn [nth_error arg_bytes]. destruct (beq k []) eqn:E; [apply beq_eq in E; congruence|].
+  change (parse_set_opts _ _ None false false) with (SetOpts None false true). cbv iota.
+  destruct (eng_exists now d k); reflexivity.
+Qed.
+
+(** APPEND to a string is concatenation, the reply is the new length; on a missing key it
+    creates the value *)
+Lemma append_spec d k v :
+  h_append d [FBulk (bs "APPEND"); FBulk k; FBulk v] =
+  match get_entry d k with
+  | Some e => match e_val e with
+              | VStr b => (r_int (len (b ++ v)), put_entry d k {| e_val := VStr (b ++ v); e_exp := e_exp e |})
+              | _ => (r_wrongtype, d)
+              end
+  | None => (r_int (len v), put_entry d k {| e_val := VStr v; e_exp := None |})
+  end.
+Proof. reflexivity. Qed.
+
+(** EXISTS counts each named key once per mention (non-bulk arguments are skipped) *)
+Fixpoint bulks_of (l : list frame) : list bytes :=
+  match l with [] => [] | FBulk b :: r => b :: bulks_of r | _ :: r => bulks_of r end.
+Lemma exists_count_spec now d : forall args n,
+  exists_count now d args n = n + len (filter (fun k => eng_exists now d k) (bulks_of args)).
+Proof.
+  induction args as [|a args IH]; intros n; cbn [exists_count bulks_of filter].
+  - change (len (@nil bytes)) with 0. lia.
+  - destruct a; try apply IH. rewrite IH. cbn [filter]. destruct (eng_exists now d b).
+    + rewrite len_cons. lia.
+    + reflexivity.
+Qed.
